@@ -44,9 +44,9 @@ class SimulationAlgorithmGraphBase
     std::uniform_real_distribution<double> uiud;     // floating point uniform distribution in [0,1[
 
 
-    int Poisson(double lambda)
+    long long Poisson(double lambda)
         {
-        return std::poisson_distribution<int>(lambda)(rng);
+        return std::poisson_distribution<long long>(lambda)(rng);
         }
 
     void SetNeighbors(
